@@ -105,7 +105,7 @@ Record gcst := mkGC { gc_b : bucket; gc_dst : nat; gc_stat : gcstat }.
 (* dataChunk.beginGCWriting *)
 Definition begin_gc_writing (b : bucket) (dst src : nat) : bucket :=
   let k := chunk_at b dst in
-  if Nat.eqb dst src then set_chunk b dst (mkChunk (k_exists k) (k_disk k) (k_fsize k) (k_wbuf k) 0 (k_size k) true)
+  if Nat.eqb dst src then set_chunk b dst (mkChunk true (k_disk k) (k_fsize k) (k_wbuf k) 0 (k_size k) true)   (* GetStreamWriter creates a missing file *)
   else set_chunk b dst (mkChunk true (k_disk k) (k_fsize k) (k_wbuf k) (k_size k) (k_size k) (k_rewriting k)).
 
 (* dataChunk.endGCWriting: truncate the stale tail of an in-place rewrite *)
